@@ -1,2 +1,4 @@
 from harness.corecheck import make
-MODULE = make("C15", ["CircusProofs/Props/C15.lean"], ["CircusProofs/Lemmas/Core.lean"])
+MODULE = make("C15", ["CircusProofs/Props/C15.lean"],
+              ["CircusProofs/Core/Pres.lean", "CircusProofs/Core/Generic.lean", "CircusProofs/Core/SlotFree.lean",
+               "CircusProofs/Core/DirInv.lean", "CircusProofs/Core/Init.lean"])
